@@ -1,4 +1,5 @@
 """C01 Born rule for wavefunction states (DESIGN.md section 2 / C01)."""
+import numpy as np
 from . import common as C
 from vf import harness
 
@@ -45,7 +46,7 @@ def scenario(B, G, kind, n, h):
         G.eq("marginal[%d]" % k, prob[k], C.rbm_hidden_marginal(O, P["am"], v))
         G.eq("amp2[%d]" % k, amp[k] * amp[k], prob[k])
         G.nonneg("amp>=0[%d]" % k, amp[k])
-        if kind == "complex":
+        if kind.startswith("complex"):
             phase_ref = O.frac(1, 2) * C.rbm_neg_eff_energy(O, P["ph"], v)
             G.eq("phase[%d]" % k, ph[k], phase_ref)
             G.eq("re[%d]" % k, re, amp[k] * O.cos(phase_ref))
@@ -66,6 +67,15 @@ def scenario(B, G, kind, n, h):
         G.eq("probZ[%d]" % k, B.scalars(st.probability(space, Z)).reshape(-1)[k] * Z, prob[k])
     G.eq("Z", Z, tot)
     G.pos("Z>0", Z)
+    # the normalisation tensor handed to probability() is the caller's: it must survive the call and be reusable
+    Zt = st.normalization(space)
+    Zt_before = B.scalars(Zt).copy()
+    p_a = B.scalars(st.probability(space, Zt))
+    G.fact("Z_tensor_unchanged_by_probability", bool(np.array_equal(B.scalars(Zt), Zt_before)) if not B.symbolic else B.scalars(Zt).reshape(-1)[0] is Zt_before.reshape(-1)[0], "normalisation tensor after probability(v, Z)")
+    p_b = B.scalars(st.probability(space, Zt))
+    for k in range(len(rows)):
+        G.eq("probZ_tensor_first[%d]" % k, p_a[k] * Z, prob[k])
+        G.eq("probZ_tensor_again[%d]" % k, p_b[k] * Z, prob[k])
     # history: the same object, re-parameterised in place (written through .data), must report the new state
     P2 = {net: C.load_rbm(B, getattr(st, "rbm_" + net), net + "'") for net in P}
     prob2 = B.scalars(st.probability(space))
@@ -92,6 +102,7 @@ def jobs(tier):
     for kind in ("positive", "complex"):
         for n, h in archs:
             out.append(dict(name="%s-%dx%d" % (kind, n, h), module="checks.c01", scenario="scenario", kwargs=dict(kind=kind, n=n, h=h)))
+    out.append(dict(name="complex-module-2x3", module="checks.c01", scenario="scenario", kwargs=dict(kind="complex-module", n=2, h=3)))
     # largest first so the pool is balanced
     out.sort(key=lambda j: -(2 ** j["kwargs"]["n"]) * (2 ** j["kwargs"]["h"]))
     return out
